@@ -113,8 +113,8 @@ Theorem C14_wiring : wiring_ok = true.
 Proof. exact wiring_now. Qed.
 Print Assumptions C14_wiring.
 
-(* Regressions: addPeer before commit a699f83 (IsClosed not consulted) registers a peer with no
-   open connection; the wrapper before commit 626d95b (addStream's result ignored) starts a handler
+(* Regressions: addPeer before commit 2ee23d5 (IsClosed not consulted) registers a peer with no
+   open connection; the wrapper before commit 9c5bd49 (addStream's result ignored) starts a handler
    for an unregistered peer with a context nobody cancels. *)
 Theorem C14_registered_iff_refuted : exists evs p,
   wf evs /\ registered (run_v0_enrol evs) p = true /\ forall k, open_enrolled evs (p, k) = false.
